@@ -17,6 +17,42 @@ def run_cli(exe, args, cwd, stdin=b"", timeout=10):
         return -9, e.stdout or b"", e.stderr or b""
 
 
+def run_cli_fifo(exe, args, cwd, fifo_name, data, stdin=b"", timeout=10):
+    """Like run_cli, with the file `fifo_name` (relative to cwd) being a NAMED PIPE through which `data` is delivered while the
+    command runs (a file whose reported size is 0 and that can be read once)."""
+    import threading
+    path = os.path.join(cwd, fifo_name)
+    if os.path.lexists(path):
+        os.remove(path)
+    os.mkfifo(path)
+    def feed():
+        try:
+            fd = os.open(path, os.O_WRONLY)
+            try:
+                os.write(fd, data)
+            finally:
+                os.close(fd)
+        except OSError:
+            pass
+    t = threading.Thread(target=feed, daemon=True)
+    t.start()
+    try:
+        res = run_cli(exe, args, cwd, stdin=stdin, timeout=timeout)
+    finally:
+        # a command that never opened the pipe leaves the feeder blocked in open(): release it
+        try:
+            fd = os.open(path, os.O_RDONLY | os.O_NONBLOCK)
+            os.close(fd)
+        except OSError:
+            pass
+        t.join(2)
+        try:
+            os.remove(path)
+        except OSError:
+            pass
+    return res
+
+
 def program_output(stdout):
     """The program's own output: what follows the 'Running' banner, minus the 'Completed' line."""
     s = stdout.decode("utf-8", errors="replace")
